@@ -84,6 +84,17 @@ def build(case) -> Built:
         b.load_log.append((t, th, w, val))
         return U.cls('Torque')(val / U.factor_f('Torque', load['unit']), load['unit'])
     b.last.external_torque = external_torque
+    b.load2_log = []
+    if case.get('load2'):
+        l2 = case['load2']
+        el2 = b.elements[l2['at']]
+
+        def external_torque_2(time, angular_position, angular_speed):
+            t, th, w = to_si(time), to_si(angular_position), to_si(angular_speed)
+            val = M.load_si(l2, t, th, w)
+            b.load2_log.append((t, th, w, val))
+            return U.cls('Torque')(val / U.factor_f('Torque', l2['unit']), l2['unit'])
+        el2.external_torque = external_torque_2
     apply_initial_conditions(b)
     b.powertrain = Powertrain(motor=b.motor)
     b.rules = []
